@@ -70,7 +70,8 @@ def plan(tier, prop):
             ["routed_nets", "dead_link_one_direction", "dead_chip", "torus",
              "mesh", "narrow_torus", "disconnected_machine", "radius_zero",
              "avoid_dead_links_used", "sink_on_source_chip", "memo_prewarmed",
-             "endpoint_sink"] if c03 else
+             "endpoint_sink", "rerouted_after_in_place_degradation"]
+            if c03 else
             ["packets_executed", "default_routed_hop", "endpoint_exit",
              "wrapper_new", "wrapper_deprecated", "hand_chain",
              "probed_machine", "direct_machine", "minimise_target_forced",
@@ -470,6 +471,38 @@ class DeployEngine(object):
                 if st == "exc":
                     return self.stage_failed("route", routes, mv)
                 self.check_routes(g, routes, mv, placements, allocations)
+                if self.c03 and g.nets and t.draw(3) == 0:
+                    # the caller degrades *its* Machine in place (a link used
+                    # by the first result dies) and routes again with the same
+                    # object
+                    hops = []
+                    for net in g.nets:
+                        nodes, _l = prcheck.walk_tree(self.RoutingTree,
+                                                      routes[net])
+                        for d, node in nodes:
+                            for r, o in node.children:
+                                if isinstance(o, self.RoutingTree):
+                                    hops.append((node.chip[0], node.chip[1],
+                                                 int(r)))
+                    if hops:
+                        x, y, l = hops[t.draw(len(hops))]
+                        machine.dead_links.add((x, y, self.Links(l)))
+                        if t.draw(2):
+                            nx, ny = mv.step(x, y, l)
+                            machine.dead_links.add((nx, ny,
+                                                    self.Links((l + 3) % 6)))
+                        w.probe("rerouted_after_in_place_degradation")
+                        w.ops.append("machine.dead_links.add((%d, %d, %d)); "
+                                     "route again" % (x, y, l))
+                        mv = prcheck.MachineView(machine)
+                        st, routes = rigcall(
+                            w, allowed, ner.route, g.vertices_resources,
+                            g.nets, machine, constraints, placements,
+                            allocations, par.Cores, radius)
+                        if st == "exc":
+                            return self.stage_failed("route", routes, mv)
+                        self.check_routes(g, routes, mv, placements,
+                                          allocations)
                 if self.c03:
                     w.ops_completed += 1
                     return {"stage": "routed", "nets": len(g.nets)}
